@@ -75,13 +75,15 @@ class JobRunner:
                            else z3.BoolVal(not region))
         self.stats['queries'] += 1
         self.path_checks.append((label, cond))
-        st, m = ctx.eng.refute(neg, int(self.ob.z3_timeout * 1000))
+        st, m, q = ctx.eng.refute(neg, int(self.ob.z3_timeout * 1000))
         cross = self.tier == 'thorough' and self.cfg.get('cross_check', False)
-        if st == 'unknown' or cross:
+        if st == 'unknown' or cross or (st == 'sat' and m is None):
             r = solve.check(list(ctx.eng.pc) + neg, self.ob.z3_timeout, self.ob.cvc5_timeout,
                             cross_check=cross, seed=self.seed)
+            me = ModelEval(r.zmodel, r.model) if r.status == 'sat' else None
         else:
-            r = solve.Result(st, zmodel=m, solver='z3-incremental')
+            r = solve.Result(st, solver='z3-sliced')
+            me = ModelEval(zvalues=m) if st == 'sat' else None
         if r.status == 'unsat':
             self.stats['discharged'] += 1
             if len(neg) > 1:
@@ -89,7 +91,6 @@ class JobRunner:
                 pass
             return
         if r.status == 'sat':
-            me = ModelEval(r.zmodel, r.model)
             self.violations.append(dict(label=label, me=me, solver=r.solver))
             return
         self.stats['unknown'] += 1
@@ -138,8 +139,11 @@ class JobRunner:
                 continue
             ctx = path.value
             # ---- per-path validation against the native implementation
-            if path.model is not None:
-                r = solve.Result('sat', zmodel=path.model, solver='z3-incremental')
+            if path.zmodel is not None:
+                r = solve.Result('sat', zmodel=path.zmodel, solver='z3')
+            elif path.model is not None:
+                r = solve.Result('sat', solver='z3-sliced')
+                r.zvalues = path.model
             else:
                 r = solve.z3_check(path.pc, 2.0, self.seed)
                 if r.status != 'sat' and solve._uses_strings(path.pc):
@@ -149,7 +153,8 @@ class JobRunner:
             if r.status != 'sat':
                 self.stats['unvalidated'] += 1
                 continue
-            me = ModelEval(r.zmodel, r.model)
+            me = ModelEval(zvalues=r.zvalues) if getattr(r, 'zvalues', None) is not None \
+                else ModelEval(r.zmodel, r.model)
             try:
                 sym_obs = canon(concretize(self._obs(ctx), me))
                 nctx, err = self.native_run(me)
